@@ -202,6 +202,10 @@ func (d *segmentationDescriptor) parseDescriptor(data []byte) error {
 		b, _ := buf.ReadByte()
 		return b
 	}
+	// identifier 4, segmentation_event_id 4, cancel indicator 1
+	if buf.Len() < 9 {
+		return gots.ErrInvalidSCTE35Length
+	}
 	if binary.BigEndian.Uint32(buf.Next(4)) != segDescID {
 		return gots.ErrSCTE35InvalidDescriptorID
 	}
@@ -247,7 +251,7 @@ func (d *segmentationDescriptor) parseDescriptor(data []byte) error {
 			d.upid = []byte{}
 			// Iterate over the whole MID len(segUpidLen) to get all `n` UPIDs
 			// segUpidLen is in bytes.
-			for segUpidLen != 0 {
+			for segUpidLen > 0 {
 				UpidElem := upidSt{}
 				UpidElem.upidType = SegUPIDType(readByte())
 				segUpidLen -= 1
